@@ -48,6 +48,18 @@ def _clone_error(err: GraphQLLocatedError) -> GraphQLLocatedError:
     # to define their own signature).
     clone = err.__class__.__new__(err.__class__)
     clone.__dict__.update(err.__dict__)
+    # State of subclasses declaring ``__slots__`` does not live in ``__dict__``.
+    for klass in type(err).__mro__:
+        slots = klass.__dict__.get("__slots__", ())
+        for slot in (slots,) if isinstance(slots, str) else slots:
+            if slot in ("__dict__", "__weakref__"):
+                continue
+            if slot.startswith("__") and not slot.endswith("__"):
+                slot = "_%s%s" % (klass.__name__.lstrip("_"), slot)
+            try:
+                setattr(clone, slot, getattr(err, slot))
+            except AttributeError:  # slot never assigned on the original
+                pass
     clone.args = err.args
     clone.nodes = list(err.nodes)
     clone.__cause__ = err.__cause__
